@@ -325,6 +325,20 @@ CLAUSE_STATEMENTS = [
     ('JOURNAL FROM year > 2000 OPEN ON 2020-02-01 CLOSE ON 2020-01-31 CLEAR', False),
     ('PRINT FROM OPEN ON 2020-02-01 CLOSE ON 2020-01-31', False),
     ('PRINT FROM year > 2000 OPEN ON 2020-02-01 CLOSE ON 2019-01-31', False),
+    # aggregates in FROM and WHERE are rejected for every statement kind
+    ('PRINT FROM count(date) > 0', False),
+    ('PRINT FROM year = 2020 AND max(date) > 2020-01-01', False),
+    ('PRINT FROM year = 2020 CLOSE ON 2020-06-01', True),
+    ('BALANCES FROM sum(number) > 0', False),
+    ('JOURNAL FROM count(*) > 1', False),
+    ('SELECT account FROM max(date) > 2020-01-01', False),
+    ('SELECT account WHERE sum(number) > 0', False),
+    ('BALANCES WHERE count(*) > 0', False),
+    ('SELECT account FROM year = 2020 WHERE first(date) = date', False),
+    # the metadata look-ups take exactly one string key
+    ('SELECT meta()', False), ('SELECT entry_meta()', False), ("SELECT account WHERE any_meta() = 'x'", False),
+    ("SELECT meta('note', 'bogus')", False), ("SELECT any_meta('note', account, 42)", False), ('SELECT meta(1)', False),
+    ("SELECT meta('note'), entry_meta('note'), any_meta('note')", True),
 ]
 
 
